@@ -63,6 +63,34 @@ def dump_row(E, con, var_no):
     return "plain", tree_R(ce)
 
 
+def link_law(wn, ln, link, q, hs, he, st, setting):
+    """the model row (C02/Model.v) that a link with reported status `st` must satisfy: (model term, its arguments, shape name)"""
+    if st == 0:
+        return "closed_row", R(q), "closed"
+    if link.link_type == "Pipe":
+        return ("pipe_row (hw_resistance %s %s %s) (minor_coeff %s %s)" % (R(link.roughness), R(link.diameter), R(link.length), R(link.minor_loss), R(link.diameter)),
+                "%s %s %s" % (R(q), R(hs), R(he)), "pipe")
+    if link.link_type == "Pump" and link.pump_type == "POWER":
+        return "power_pump_row %s" % R(link.power), "%s %s %s" % (R(q), R(hs), R(he)), "power_pump"
+    if link.link_type == "Pump":
+        A, B, C = link.get_head_curve_coefficients()
+        return "head_pump_row %s %s %s" % (R(A), R(B), R(C)), "%s %s %s" % (R(q), R(hs), R(he)), "head_pump"
+    vt = link.valve_type
+    if st == 2 and vt == "PRV":
+        model, margs = "prv_active_row %s %s" % (R(setting), R(wn.get_node(link.end_node_name).elevation)), R(he)
+    elif st == 2 and vt == "PSV":
+        model, margs = "psv_active_row %s %s" % (R(setting), R(wn.get_node(link.start_node_name).elevation)), R(hs)
+    elif st == 2 and vt == "FCV":
+        model, margs = "fcv_active_row %s" % R(setting), R(q)
+    elif st == 2 and vt == "TCV":
+        model, margs = "signed_quad_row (minor_coeff %s %s)" % (R(setting), R(link.diameter)), "%s %s %s" % (R(q), R(hs), R(he))
+    elif vt in ("PRV", "PSV"):
+        model, margs = "open_prv_psv_row (minor_coeff %s %s)" % (R(link.minor_loss), R(link.diameter)), "%s %s %s" % (R(q), R(hs), R(he))
+    else:
+        model, margs = "signed_quad_row (minor_coeff %s %s)" % (R(link.minor_loss), R(link.diameter)), "%s %s %s" % (R(q), R(hs), R(he))
+    return model, margs, vt + ("_active" if st == 2 else "_open")
+
+
 def check(run, replay=None):
     wntr = common.import_wntr(build_ext=True)
     from wntr.sim.aml import expr as E
@@ -210,32 +238,9 @@ def check(run, replay=None):
                                   "%s reports reverse flow %.3g beyond the flow tolerance" % (ln, q), input=desc)
                 if iso:
                     continue
-                if st == 0:
-                    model, margs, shape, tol = "closed_row", R(q), "closed", "1 / 500000"
-                elif link.link_type == "Pipe":
-                    model = "pipe_row (hw_resistance %s %s %s) (minor_coeff %s %s)" % (R(link.roughness), R(link.diameter), R(link.length), R(link.minor_loss), R(link.diameter))
-                    margs, shape, tol = "%s %s %s" % (R(q), R(hs), R(he)), "pipe", "1 / 400000"
-                elif link.link_type == "Pump" and link.pump_type == "POWER":
-                    model, margs, shape = "power_pump_row %s" % R(link.power), "%s %s %s" % (R(q), R(hs), R(he)), "power_pump"
-                    tol = "1 / 400000"
-                elif link.link_type == "Pump":
-                    A, B, C = link.get_head_curve_coefficients()
-                    model, margs, shape, tol = "head_pump_row %s %s %s" % (R(A), R(B), R(C)), "%s %s %s" % (R(q), R(hs), R(he)), "head_pump", "1 / 400000"
-                else:
-                    vt, setting = link.valve_type, float(SE.loc[t, ln])
-                    if st == 2 and vt == "PRV":
-                        model, margs = "prv_active_row %s %s" % (R(setting), R(wn.get_node(link.end_node_name).elevation)), R(he)
-                    elif st == 2 and vt == "PSV":
-                        model, margs = "psv_active_row %s %s" % (R(setting), R(wn.get_node(link.start_node_name).elevation)), R(hs)
-                    elif st == 2 and vt == "FCV":
-                        model, margs = "fcv_active_row %s" % R(setting), R(q)
-                    elif st == 2 and vt == "TCV":
-                        model, margs = "signed_quad_row (minor_coeff %s %s)" % (R(setting), R(link.diameter)), "%s %s %s" % (R(q), R(hs), R(he))
-                    elif vt in ("PRV", "PSV"):
-                        model, margs = "open_prv_psv_row (minor_coeff %s %s)" % (R(link.minor_loss), R(link.diameter)), "%s %s %s" % (R(q), R(hs), R(he))
-                    else:
-                        model, margs = "signed_quad_row (minor_coeff %s %s)" % (R(link.minor_loss), R(link.diameter)), "%s %s %s" % (R(q), R(hs), R(he))
-                    shape, tol = vt + ("_active" if st == 2 else "_open"), "1 / 400000"
+                setting = float(SE.loc[t, ln]) if link.link_type == "Valve" else 0.0
+                model, margs, shape = link_law(wn, ln, link, q, hs, he, st, setting)
+                tol = "1 / 500000" if st == 0 else "1 / 400000"
                 add("Rabs (%s %s) <= %s" % (model, margs, tol), dict(desc, shape=shape), abs(q) > 1e-6 or st == 0)
     res_, errors = common.run_prop_cases("C02", HEADER, TACTIC, cases, shard=40, case_timeout=40)
     for e in errors:
